@@ -290,4 +290,790 @@ theorem led_watcher (qid : Nat) (s : DL) (h : Led s.1 s.2.invoices) (hw : LedWf 
     have hid : q.id = qid := by have := dbGetMintQ_id hq; exact_mod_cast this
     rw [← hid]
     exact led_setPaid s.1 s.2.invoices q h hw.mintIds (Gonuts.Props.C06.dbGetMintQ_mem hq) hu (hs q hq)
+
+/-! ## The backend's invoices under the operations -/
+
+theorem isSettled_append (invs : List Invoice) (i : Invoice) (hi : i.settled = false) (h : Nat) :
+    isSettled (invs ++ [i]) h = isSettled invs h := by
+  unfold isSettled
+  rw [List.find?_append]
+  cases hf : invs.find? (·.id == h) with
+  | some x => rfl
+  | none =>
+    simp only [Option.none_or, List.find?_cons, List.find?_nil]
+    by_cases hid : (i.id == h) = true
+    · simp [hid, hi]
+    · simp [hid]
+
+theorem popScript_invoices (ln : LN) : (popScript ln).1.invoices = ln.invoices := by
+  unfold popScript; split <;> rfl
+
+/-- No Lightning effect changes what the backend reports as settled (a new invoice is unsettled). -/
+theorem execLn_isSettled {β : Type} (ln ln' : LN) (e : Eff β) (r : β) (hx : execLn ln e = some (ln', r)) (h : Nat) :
+    isSettled ln'.invoices h = isSettled ln.invoices h := by
+  cases e with
+  | lnCreateInvoice a =>
+    simp only [execLn] at hx
+    split at hx
+    · injection hx with hx; injection hx with h1 _; subst h1; rfl
+    · injection hx with hx; injection hx with h1 _; subst h1
+      exact isSettled_append _ _ rfl h
+  | lnInvoiceStatus h' =>
+    simp only [execLn] at hx
+    split at hx
+    · injection hx with hx; injection hx with h1 _; subst h1; rfl
+    · split at hx <;> (injection hx with hx; injection hx with h1 _; subst h1; rfl)
+  | lnSendPayment inv maxFee =>
+    simp only [execLn] at hx
+    injection hx with hx; injection hx with h1 _; subst h1
+    show isSettled (popScript ln).1.invoices h = _
+    rw [popScript_invoices]
+  | lnPayPartial inv msat maxFee =>
+    simp only [execLn] at hx
+    injection hx with hx; injection hx with h1 _; subst h1
+    show isSettled (popScript ln).1.invoices h = _
+    rw [popScript_invoices]
+  | lnOutgoingStatus h' =>
+    simp only [execLn] at hx
+    injection hx with hx; injection hx with h1 _; subst h1
+    show isSettled (popScript ln).1.invoices h = _
+    rw [popScript_invoices]
+  | lnFeeReserve a =>
+    simp only [execLn] at hx
+    injection hx with hx; injection hx with h1 _; subst h1; rfl
+  | _ => simp [execLn] at hx
+
+theorem stepDL_isSettled {β : Type} (s : DL) (e : Eff β) (h : Nat) :
+    isSettled (stepDL s e).1.2.invoices h = isSettled s.2.invoices h := by
+  unfold stepDL
+  split
+  · rfl
+  · split
+    · rename_i ln' r hx
+      exact execLn_isSettled s.2 ln' e r hx h
+    · rfl
+
+theorem runDL_isSettled {α : Type} (p : Prog α) (s : DL) (h : Nat) :
+    isSettled (runDL p s).1.2.invoices h = isSettled s.2.invoices h := by
+  induction p generalizing s with
+  | ret a => rfl
+  | eff e k ih => simp only [runDL]; rw [ih, stepDL_isSettled]
+
+theorem runM_isSettled {α : Type} (p : PM α) (s : DL) (h : Nat) :
+    isSettled (runM p s).1.2.invoices h = isSettled s.2.invoices h := runDL_isSettled _ s h
+
+/-- `received` only looks at `isSettled`. -/
+theorem received_congr (db : DB) (i1 i2 : List Invoice) (h : ∀ x, isSettled i1 x = isSettled i2 x) :
+    received db i1 = received db i2 := by
+  simp only [received]
+  congr 1
+  apply List.map_congr_left
+  intro q _
+  simp only [inflowOf, h]
+
+theorem Led.congr_invoices {db : DB} {i1 i2 : List Invoice} (h : Led db i1) (he : ∀ x, isSettled i2 x = isSettled i1 x) : Led db i2 :=
+  ⟨by rw [received_congr db i2 i1 he]; exact h.core, h.pend⟩
+
+/-- More invoices settled: the right-hand side can only grow. -/
+theorem received_mono (db : DB) (i1 i2 : List Invoice) (h : ∀ x, isSettled i1 x = true → isSettled i2 x = true) :
+    received db i1 ≤ received db i2 := by
+  simp only [received]
+  induction db.mintQ with
+  | nil => simp
+  | cons q qs ih =>
+    simp only [List.map_cons, List.sum_cons]
+    have : inflowOf i1 q ≤ inflowOf i2 q := by
+      unfold inflowOf
+      by_cases h1 : (q.state != .unpaid && isSettled i1 q.hash) = true
+      · have h2 : (q.state != .unpaid && isSettled i2 q.hash) = true := by
+          simp only [Bool.and_eq_true] at h1 ⊢; exact ⟨h1.1, h _ h1.2⟩
+        simp [h1, h2]
+      · simp [h1]
+    omega
+
+theorem Led.mono_invoices {db : DB} {i1 i2 : List Invoice} (h : Led db i1)
+    (he : ∀ x, isSettled i1 x = true → isSettled i2 x = true) : Led db i2 :=
+  ⟨by have := received_mono db i1 i2 he; have := h.core; omega, h.pend⟩
+
+
+theorem led_transfer {α : Type} (p : PM α) (s : DL) (h : Led (runM p s).1.1 s.2.invoices) :
+    Led (runM p s).1.1 (runM p s).1.2.invoices := h.congr_invoices (fun x => runM_isSettled p s x)
+
+theorem sum_map_le {α : Type} (l : List α) (f g : α → Nat) (h : ∀ x ∈ l, f x ≤ g x) : (l.map f).sum ≤ (l.map g).sum := by
+  induction l with
+  | nil => simp
+  | cons x xs ih =>
+    simp only [List.map_cons, List.sum_cons]
+    have := h x (List.mem_cons_self ..)
+    have := ih (fun y hy => h y (List.mem_cons_of_mem _ hy))
+    omega
+
+/-- A new mint quote can only turn a melt quote from "paid over Lightning" into "settled internally". -/
+theorem paidOut_append_mintQ (db : DB) (q : MintQ) : paidOut { db with mintQ := db.mintQ ++ [q] } ≤ paidOut db := by
+  simp only [paidOut]
+  apply sum_map_le
+  intro m _
+  simp only [outOf, externalQ, List.any_append, List.any_cons, List.any_nil, Bool.or_false, Bool.not_or]
+  by_cases h1 : (m.state == LQState.paid) = true <;> by_cases h2 : (db.mintQ.any (·.hash == m.hash)) = true <;>
+    by_cases h3 : (q.hash == m.hash) = true <;> simp [h1, h2, h3]
+
+/-- `RequestMintQuote` keeps the ledger (the new quote is UNPAID, its invoice unsettled). -/
+theorem led_mintQuote (cx : Cx) (qid : Nat) (amount : UInt64) (u : Bool) (pk : PkReq) (s : DL) (h : Led s.1 s.2.invoices) :
+    Led (runM (requestMintQuote cx qid amount u pk) s).1.1 (runM (requestMintQuote cx qid amount u pk) s).1.2.invoices := by
+  apply led_transfer
+  generalize hr : runM (requestMintQuote cx qid amount u pk) s = x
+  obtain ⟨s', r⟩ := x
+  rcases requestMintQuote_cases cx qid amount u pk s s' r hr with ⟨e, _, hs⟩ | ⟨q, _, hok⟩
+  · show Led s'.1 s.2.invoices
+    rw [hs]; exact h
+  · show Led s'.1 s.2.invoices
+    rw [hok.db]
+    have hst : q.state = .unpaid := by rw [hok.quote]
+    have c0 : creditOf q = 0 := by simp [creditOf, hst]
+    have r0 : inflowOf s.2.invoices q = 0 := by simp [inflowOf, hst]
+    constructor
+    · show 1000 * (amtS s.1.sigs + ((s.1.mintQ ++ [q]).map creditOf).sum) + paidOut { s.1 with mintQ := s.1.mintQ ++ [q] }
+          ≤ 1000 * (((s.1.mintQ ++ [q]).map (inflowOf s.2.invoices)).sum + amtP s.1.spent)
+      have := paidOut_append_mintQ s.1 q
+      have := h.core
+      simp only [credit, received] at this
+      simp only [List.map_append, List.sum_append, List.map_cons, List.map_nil, List.sum_cons, List.sum_nil, c0, r0]
+      omega
+    · exact h.pend
+
+/-- `RequestMeltQuote` keeps the ledger (the new quote is UNPAID). -/
+theorem led_meltQuote (cx : Cx) (qid : Nat) (inv : InvReq) (m : Nat → UInt64) (u : Bool) (mpp : Option UInt64) (s : DL)
+    (h : Led s.1 s.2.invoices) :
+    Led (runM (requestMeltQuote cx qid inv m u mpp) s).1.1 (runM (requestMeltQuote cx qid inv m u mpp) s).1.2.invoices := by
+  apply led_transfer
+  generalize hr : runM (requestMeltQuote cx qid inv m u mpp) s = x
+  obtain ⟨s', r⟩ := x
+  rcases requestMeltQuote_cases cx qid inv m u mpp s s' r hr with ⟨e, _, hs⟩ | ⟨hh, q, _, _, hok⟩
+  · show Led s'.1 s.2.invoices
+    rw [hs]; exact h
+  · show Led s'.1 s.2.invoices
+    rw [hok.db]
+    have hst : q.state = .unpaid := hok.id.2.2.2.1
+    constructor
+    · show 1000 * (amtS s.1.sigs + credit s.1) + ((s.1.meltQ ++ [q]).map (outOf { s.1 with meltQ := s.1.meltQ ++ [q] })).sum
+          ≤ 1000 * (received s.1 s.2.invoices + amtP s.1.spent)
+      have o0 : outOf { s.1 with meltQ := s.1.meltQ ++ [q] } q = 0 := by simp [outOf, hst]
+      have hsame : (s.1.meltQ.map (outOf { s.1 with meltQ := s.1.meltQ ++ [q] })) = s.1.meltQ.map (outOf s.1) := rfl
+      simp only [List.map_append, List.sum_append, List.map_cons, List.map_nil, List.sum_cons, List.sum_nil, o0, hsame]
+      have := h.core
+      simp only [paidOut] at this
+      omega
+    · intro mq hmq hp
+      rcases List.mem_append.1 hmq with hm | hm
+      · exact h.pend mq hm hp
+      · simp at hm; subst hm; rw [hst] at hp; cases hp
+
+
+/-- Melt quote ids are unique in every state any execution reaches (effect-level). -/
+theorem meltQ_nodup_db : DbInv (fun db => (db.meltQ.map (·.id)).Nodup) := by
+  intro β e db db' r h hq
+  db_cases h hq
+  · rename_i q hh hany
+    simp only [List.map_append, List.map_cons, List.map_nil]
+    rw [List.nodup_append]
+    refine ⟨hq, by simp, ?_⟩
+    intro a ha b hb
+    simp at hb; subst hb
+    intro hab; subst hab
+    apply hany
+    obtain ⟨x, hx, hxe⟩ := List.mem_map.1 ha
+    simp only [List.any_eq_true]; exact ⟨x, hx, by simp [hxe]⟩
+  · have : ∀ (i pre : Nat) (st : LQState), (updMeltQ db.meltQ i pre st).map (·.id) = db.meltQ.map (·.id) := by
+      intro i pre st
+      unfold updMeltQ; simp only [List.map_map]; congr 1; funext q; simp only [Function.comp]; split <;> rfl
+    show ((updMeltQ db.meltQ _ _ _).map (·.id)).Nodup
+    rw [this]; exact hq
+
+theorem LedWf.applyOp (s : Sess) (op : Op) (hw : LedWf s.w.db) : LedWf (applyOp s op).1.w.db :=
+  ⟨applyOp_db Gonuts.Props.C06.mintQ_nodup_db s op hw.mintIds, applyOp_db meltQ_nodup_db s op hw.meltIds⟩
+
+
+/-! ## Melt quotes and locked inputs -/
+
+theorem sum_updMeltQ (f : MeltQ → Nat) (qs : List MeltQ) (q : MeltQ) (pre : Nat) (st : LQState)
+    (hn : (qs.map (·.id)).Nodup) (hq : q ∈ qs) :
+    ((updMeltQ qs q.id pre st).map f).sum + f q = (qs.map f).sum + f { q with state := st, preimage := pre } := by
+  induction qs with
+  | nil => cases hq
+  | cons x xs ih =>
+    simp only [List.map_cons, List.nodup_cons] at hn
+    simp only [updMeltQ, List.map_cons, List.sum_cons] at ih ⊢
+    rcases List.mem_cons.1 hq with rfl | hq'
+    · have htail : xs.map (fun y => if (y.id == q.id) = true then { y with state := st, preimage := pre } else y) = xs := by
+        conv => rhs; rw [← List.map_id xs]
+        apply List.map_congr_left
+        intro y hy
+        have : ¬ (y.id == q.id) = true := by
+          intro he; apply hn.1; rw [← (by simpa using he : y.id = q.id)]; exact List.mem_map.2 ⟨y, hy, rfl⟩
+        simp [this]
+      simp only [beq_self_eq_true, if_true, htail]
+      omega
+    · have hne : ¬ (x.id == q.id) = true := by
+        intro he; apply hn.1; rw [(by simpa using he : x.id = q.id)]; exact List.mem_map.2 ⟨q, hq', rfl⟩
+      rw [if_neg hne]
+      have := ih hn.2 hq'
+      omega
+
+theorem updMeltQ_twice (qs : List MeltQ) (id p1 p2 : Nat) (a b : LQState) :
+    updMeltQ (updMeltQ qs id p1 a) id p2 b = updMeltQ qs id p2 b := by
+  simp only [updMeltQ, List.map_map]
+  apply List.map_congr_left
+  intro q _
+  simp only [Function.comp]
+  by_cases h : (q.id == id) = true <;> simp [h]
+
+theorem mem_updMeltQ {qs : List MeltQ} {id pre : Nat} {st : LQState} {m : MeltQ} (h : m ∈ updMeltQ qs id pre st) :
+    ∃ m0 ∈ qs, m = if (m0.id == id) = true then { m0 with state := st, preimage := pre } else m0 := by
+  simp only [updMeltQ, List.mem_map] at h
+  obtain ⟨m0, hm0, he⟩ := h
+  exact ⟨m0, hm0, he.symm⟩
+
+theorem dbGetMeltQ_mem {db : DB} {qid : Int} {q : MeltQ} (h : dbGetMeltQ db qid = .ok q) : q ∈ db.meltQ := by
+  unfold dbGetMeltQ at h
+  split at h
+  · rename_i q' hf; injection h with h; subst h; exact List.mem_of_find?_eq_some hf
+  · cases h
+
+theorem amtP_filter_le (t : List PRow) (p : PRow → Bool) : amtP (t.filter p) ≤ amtP t := by
+  induction t with
+  | nil => simp
+  | cons r rs ih =>
+    simp only [List.filter_cons]
+    split
+    · rw [amtP_cons, amtP_cons]; omega
+    · rw [amtP_cons]; omega
+
+theorem amtP_lockRows (q : MeltQ) (ps : List Proof) : amtP (lockRows q ps) = natSum (ps.map (·.amount)) := by
+  simp [amtP, natSum, lockRows, List.map_map, Function.comp_def, Proof.row]
+
+theorem lockRows_filter_own (q : MeltQ) (ps : List Proof) : (lockRows q ps).filter (·.quote == q.id) = lockRows q ps := by
+  apply List.filter_eq_self.2
+  intro r hr
+  simp only [lockRows, List.mem_map] at hr
+  obtain ⟨r0, _, rfl⟩ := hr
+  simp
+
+/-- Locking fresh inputs and filtering them out again gives back the pending table. -/
+theorem filter_locked (pend : List PRow) (q : MeltQ) (ps : List Proof) (hf : ∀ p ∈ ps, p.secret ∉ ysOf pend) :
+    (pend ++ lockRows q ps).filter (fun r => !(ps.map (·.secret)).contains r.y) = pend := by
+  rw [List.filter_append]
+  have h1 : pend.filter (fun r => !(ps.map (·.secret)).contains r.y) = pend := by
+    apply List.filter_eq_self.2
+    intro r hr
+    simp only [Bool.not_eq_true', List.contains_eq_mem, decide_eq_false_iff_not, List.mem_map, not_exists, not_and]
+    intro p hp he
+    exact hf p hp (by rw [he]; exact List.mem_map.2 ⟨r, hr, rfl⟩)
+  have h2 : (lockRows q ps).filter (fun r => !(ps.map (·.secret)).contains r.y) = [] := by
+    apply List.filter_eq_nil_iff.2
+    intro r hr
+    simp only [lockRows, List.mem_map] at hr
+    obtain ⟨r0, ⟨p, hp, rfl⟩, rfl⟩ := hr
+    simp only [Bool.not_eq_true', Bool.not_eq_false, List.contains_eq_mem, decide_eq_true_eq, List.mem_map]
+    exact ⟨p, hp, rfl⟩
+  rw [h1, h2, List.append_nil]
+
+theorem outOf_le (db : DB) (m : MeltQ) : outOf db m ≤ 1000 * needOf m := by
+  unfold outOf; split <;> omega
+
+
+theorem meltQ_eq_of_id {qs : List MeltQ} (hn : (qs.map (·.id)).Nodup) {a b : MeltQ} (ha : a ∈ qs) (hb : b ∈ qs)
+    (hid : a.id = b.id) : a = b := by
+  induction qs with
+  | nil => cases ha
+  | cons y ys ih =>
+    simp only [List.map_cons, List.nodup_cons] at hn
+    rcases List.mem_cons.1 ha with rfl | ha' <;> rcases List.mem_cons.1 hb with rfl | hb'
+    · rfl
+    · exfalso; apply hn.1; rw [hid]; exact List.mem_map.2 ⟨b, hb', rfl⟩
+    · exfalso; apply hn.1; rw [← hid]; exact List.mem_map.2 ⟨a, ha', rfl⟩
+    · exact ih hn.2 ha' hb'
+
+theorem amtP_filter_append (a b : List PRow) (p : PRow → Bool) :
+    amtP ((a ++ b).filter p) = amtP (a.filter p) + amtP (b.filter p) := by
+  rw [List.filter_append, amtP_append]
+
+/-- The quote goes to PENDING and its (sufficient) inputs are locked under it. -/
+theorem led_locked (db : DB) (invs : List Invoice) (q : MeltQ) (ps : List Proof) (h : Led db invs) (hw : LedWf db)
+    (hq : q ∈ db.meltQ) (hu : q.state = .unpaid) (hn : needOf q ≤ natSum (ps.map (·.amount))) :
+    Led (lockedDb db q ps) invs := by
+  constructor
+  · have hs := sum_updMeltQ (outOf db) db.meltQ q 0 .pending hw.meltIds hq
+    have o0 : outOf db q = 0 := by simp [outOf, hu]
+    have o1 : outOf db { q with state := .pending, preimage := 0 } = 0 := by simp [outOf]
+    rw [o0, o1] at hs
+    show 1000 * (amtS db.sigs + credit db) + ((updMeltQ db.meltQ q.id 0 .pending).map (outOf db)).sum
+        ≤ 1000 * (received db invs + amtP db.spent)
+    have := h.core
+    simp only [paidOut] at this
+    omega
+  · intro m hm hp
+    obtain ⟨m0, hm0, he⟩ := mem_updMeltQ hm
+    show needOf m ≤ amtP ((db.pending ++ lockRows q ps).filter (·.quote == m.id))
+    rw [amtP_filter_append]
+    by_cases hid : (m0.id == q.id) = true
+    · rw [if_pos hid] at he
+      have hmq : m0 = q := meltQ_eq_of_id hw.meltIds hm0 hq (by simpa using hid)
+      subst hmq
+      have e1 : needOf m = needOf m0 := by rw [he]; rfl
+      have e2 : m.id = m0.id := by rw [he]
+      rw [e1, e2, lockRows_filter_own, amtP_lockRows]
+      omega
+    · rw [if_neg hid] at he
+      subst he
+      have := h.pend m hm0 hp
+      omega
+
+/-- A quote that was UNPAID or PENDING goes (back) to UNPAID; the pending table is as it was without its inputs. -/
+theorem led_quote_unpaid (db : DB) (invs : List Invoice) (q : MeltQ) (pre : Nat) (h : Led db invs) (hw : LedWf db)
+    (hq : q ∈ db.meltQ) (hs : q.state ≠ .paid) :
+    Led { db with meltQ := updMeltQ db.meltQ q.id pre .unpaid } invs := by
+  constructor
+  · have hsum := sum_updMeltQ (outOf db) db.meltQ q pre .unpaid hw.meltIds hq
+    have o0 : outOf db q = 0 := by
+      unfold outOf
+      have : (q.state == LQState.paid) = false := by cases hq' : q.state <;> simp_all
+      simp [this]
+    have o1 : outOf db { q with state := .unpaid, preimage := pre } = 0 := by simp [outOf]
+    rw [o0, o1] at hsum
+    show 1000 * (amtS db.sigs + credit db) + ((updMeltQ db.meltQ q.id pre .unpaid).map (outOf db)).sum
+        ≤ 1000 * (received db invs + amtP db.spent)
+    have := h.core
+    simp only [paidOut] at this
+    omega
+  · intro m hm hp
+    obtain ⟨m0, hm0, he⟩ := mem_updMeltQ hm
+    by_cases hid : (m0.id == q.id) = true
+    · rw [if_pos hid] at he; rw [he] at hp; cases hp
+    · rw [if_neg hid] at he; subst he
+      exact h.pend m hm0 hp
+
+
+/-- The quote goes to PAID and rows worth at least amount + fee reserve move to the spent table. -/
+theorem led_quote_paid (db : DB) (invs : List Invoice) (q : MeltQ) (pre : Nat) (rows : List PRow) (h : Led db invs)
+    (hw : LedWf db) (hq : q ∈ db.meltQ) (hs : q.state ≠ .paid) (hr : needOf q ≤ amtP rows) :
+    Led { db with spent := db.spent ++ rows, meltQ := updMeltQ db.meltQ q.id pre .paid } invs := by
+  constructor
+  · have hsum := sum_updMeltQ (outOf db) db.meltQ q pre .paid hw.meltIds hq
+    have o0 : outOf db q = 0 := by
+      unfold outOf
+      have : (q.state == LQState.paid) = false := by cases hq' : q.state <;> simp_all
+      simp [this]
+    have o1 := outOf_le db { q with state := .paid, preimage := pre }
+    have n1 : needOf { q with state := .paid, preimage := pre } = needOf q := rfl
+    rw [o0] at hsum
+    rw [n1] at o1
+    show 1000 * (amtS db.sigs + credit db) + ((updMeltQ db.meltQ q.id pre .paid).map (outOf db)).sum
+        ≤ 1000 * (received db invs + amtP (db.spent ++ rows))
+    rw [amtP_append]
+    have := h.core
+    simp only [paidOut] at this
+    omega
+  · intro m hm hp
+    obtain ⟨m0, hm0, he⟩ := mem_updMeltQ hm
+    by_cases hid : (m0.id == q.id) = true
+    · rw [if_pos hid] at he; rw [he] at hp; cases hp
+    · rw [if_neg hid] at he; subst he
+      exact h.pend m hm0 hp
+
+/-- Internal settlement: the quote goes to PAID without a Lightning payment, the mint quote of the same invoice is
+    credited, and rows worth at least that mint quote's amount move to the spent table. -/
+theorem led_quote_paid_internal (db : DB) (invs : List Invoice) (q : MeltQ) (pre : Nat) (rows : List PRow) (mq : MintQ)
+    (h : Led db invs) (hw : LedWf db) (hq : q ∈ db.meltQ) (hs : q.state ≠ .paid) (hmq : mq ∈ db.mintQ) (hh : mq.hash = q.hash)
+    (hr : mq.amount.toNat ≤ amtP rows) :
+    Led { db with spent := db.spent ++ rows, meltQ := updMeltQ db.meltQ q.id pre .paid,
+                  mintQ := updMintQ db.mintQ mq.id .paid } invs := by
+  constructor
+  · have hsum := sum_updMeltQ (outOf db) db.meltQ q pre .paid hw.meltIds hq
+    have o0 : outOf db q = 0 := by
+      unfold outOf
+      have : (q.state == LQState.paid) = false := by cases hq' : q.state <;> simp_all
+      simp [this]
+    have o1 : outOf db { q with state := .paid, preimage := pre } = 0 := by
+      have : externalQ db { q with state := .paid, preimage := pre } = false := by
+        simp only [externalQ, Bool.not_eq_false', List.any_eq_true]
+        exact ⟨mq, hmq, by simp [hh]⟩
+      simp [outOf, this]
+    rw [o0, o1] at hsum
+    have hc := sum_updMintQ creditOf db.mintQ mq .paid hw.mintIds hmq
+    have hrc := sum_updMintQ (inflowOf invs) db.mintQ mq .paid hw.mintIds hmq
+    have c1 : creditOf { mq with state := .paid } = mq.amount.toNat := rfl
+    have r1 : inflowOf invs mq ≤ inflowOf invs { mq with state := .paid } := by
+      unfold inflowOf
+      by_cases hst : isSettled invs mq.hash = true
+      · simp only [hst, Bool.and_true]
+        split <;> simp
+      · simp [hst]
+    rw [c1] at hc
+    have hpo : ((updMeltQ db.meltQ q.id pre .paid).map
+        (outOf { db with spent := db.spent ++ rows, meltQ := updMeltQ db.meltQ q.id pre .paid, mintQ := updMintQ db.mintQ mq.id .paid })).sum
+        = ((updMeltQ db.meltQ q.id pre .paid).map (outOf db)).sum := by
+      congr 1
+      apply List.map_congr_left
+      intro m _
+      simp only [outOf]
+      rw [show externalQ { db with spent := db.spent ++ rows, meltQ := updMeltQ db.meltQ q.id pre .paid, mintQ := updMintQ db.mintQ mq.id .paid } m
+            = externalQ { db with mintQ := updMintQ db.mintQ mq.id .paid } m from rfl, externalQ_updMintQ]
+    show 1000 * (amtS db.sigs + ((updMintQ db.mintQ mq.id .paid).map creditOf).sum) +
+          ((updMeltQ db.meltQ q.id pre .paid).map
+            (outOf { db with spent := db.spent ++ rows, meltQ := updMeltQ db.meltQ q.id pre .paid, mintQ := updMintQ db.mintQ mq.id .paid })).sum
+        ≤ 1000 * (((updMintQ db.mintQ mq.id .paid).map (inflowOf invs)).sum + amtP (db.spent ++ rows))
+    rw [hpo, amtP_append]
+    have := h.core
+    simp only [paidOut, credit, received] at this
+    omega
+  · intro m hm hp
+    obtain ⟨m0, hm0, he⟩ := mem_updMeltQ hm
+    by_cases hid : (m0.id == q.id) = true
+    · rw [if_pos hid] at he; rw [he] at hp; cases hp
+    · rw [if_neg hid] at he; subst he
+      exact h.pend m hm0 hp
+
+
+theorem dbGetMintQByHash_mem {db : DB} {h : Nat} {mq : MintQ} (hq : dbGetMintQByHash db h = .ok mq) :
+    mq ∈ db.mintQ ∧ mq.hash = h := by
+  unfold dbGetMintQByHash at hq
+  split at hq
+  · rename_i q' hf; injection hq with hq; subst hq
+    exact ⟨List.mem_of_find?_eq_some hf, by simpa using List.find?_some hf⟩
+  · cases hq
+
+theorem tailDb_locked_paid (db : DB) (q : MeltQ) (ps : List Proof) (pre : Nat)
+    (hf : ∀ p ∈ ps, p.secret ∉ ysOf db.pending) :
+    tailDb (lockedDb db q ps) { q with state := .pending } ps pre .paid
+      = { db with spent := db.spent ++ ps.map Proof.row, meltQ := updMeltQ db.meltQ q.id pre .paid } := by
+  simp only [tailDb, lockedDb, filter_locked db.pending q ps hf, updMeltQ_twice]
+
+theorem tailDb_locked_unpaid (db : DB) (q : MeltQ) (ps : List Proof) (pre : Nat)
+    (hf : ∀ p ∈ ps, p.secret ∉ ysOf db.pending) :
+    tailDb (lockedDb db q ps) { q with state := .pending } ps pre .unpaid
+      = { db with meltQ := updMeltQ db.meltQ q.id 0 .unpaid } := by
+  simp only [tailDb, lockedDb, filter_locked db.pending q ps hf, updMeltQ_twice]
+
+/-- Admissibility of a melt request at a state: the Go's unchecked `amount + fee_reserve + fees` does not wrap for the
+    quote it names (amount and reserve are below 2^63 for every stored quote; this excludes absurd fee totals), and a
+    mint quote of this mint for the same invoice is not larger than the melt quote (true whenever the invoice carries
+    the mint quote's amount, i.e. for amounts a BOLT11 invoice can express). -/
+def MeltOk (cx : Cx) (db : DB) (qid : Int) (ps : List Proof) : Prop :=
+  ∀ q, dbGetMeltQ db qid = .ok q →
+    q.amount.toNat + q.feeReserve.toNat + (transactionFees cx.mem ps).toNat < 2 ^ 64 ∧
+    ∀ mq, dbGetMintQByHash db q.hash = .ok mq → mq.amount.toNat ≤ q.amount.toNat
+
+/-- `MeltTokens` keeps the ledger. -/
+theorem led_melt (cx : Cx) (qid : Int) (ps : List Proof) (s : DL) (h : Led s.1 s.2.invoices) (hw : LedWf s.1)
+    (hok : MeltOk cx s.1 qid ps) :
+    Led (runM (meltTokens cx qid ps) s).1.1 (runM (meltTokens cx qid ps) s).1.2.invoices := by
+  apply led_transfer
+  generalize hr : runM (meltTokens cx qid ps) s = x
+  obtain ⟨s', r⟩ := x
+  show Led s'.1 s.2.invoices
+  rcases melt_cases cx qid ps s s' r hr with ⟨e, _, rfl⟩ | ⟨q, hacc, hcase⟩
+  · exact h
+  · obtain ⟨_, hfp, _, _, _⟩ := verifySpec_ok_fresh hacc.verified
+    obtain ⟨hnw, hint⟩ := hok q hacc.quote
+    have hq : q ∈ s.1.meltQ := dbGetMeltQ_mem hacc.quote
+    have hburn := Gonuts.Props.C02.melt_burns_amount_reserve_fees cx qid ps s q hacc hnw
+    have hneed : needOf q ≤ natSum (ps.map (·.amount)) := by unfold needOf; omega
+    have hs : q.state ≠ .paid := by rw [hacc.unpaid]; simp
+    rcases hcase with ⟨_, _, hdb⟩ | ⟨mq, hmq, ⟨_, hdb⟩ | ⟨_, hdb⟩⟩
+    · rw [hdb]
+      cases meltOutcome (ans0 s.2) (ans1 s.2) with
+      | unpaid => rw [tailDb_locked_unpaid _ _ _ _ hfp]; exact led_quote_unpaid _ _ q 0 h hw hq hs
+      | pending => exact led_locked _ _ q ps h hw hq hacc.unpaid hneed
+      | paid =>
+        rw [tailDb_locked_paid _ _ _ _ hfp]
+        exact led_quote_paid _ _ q _ _ h hw hq hs (by rw [amtP_rows]; exact hneed)
+    · rw [hdb, tailDb_locked_paid _ _ _ _ hfp]
+      obtain ⟨hm1, hm2⟩ := dbGetMintQByHash_mem hmq
+      have := hint mq hmq
+      exact led_quote_paid_internal _ _ q _ _ mq h hw hq hs hm1 hm2 (by rw [amtP_rows]; unfold needOf at hneed; omega)
+    · rw [hdb, tailDb_locked_unpaid _ _ _ _ hfp]; exact led_quote_unpaid _ _ q 0 h hw hq hs
+
+
+/-! ## Polls of pending melts -/
+
+theorem row_eq_of_y {t : List PRow} (hn : (ysOf t).Nodup) {a b : PRow} (ha : a ∈ t) (hb : b ∈ t) (hy : a.y = b.y) : a = b := by
+  induction t with
+  | nil => cases ha
+  | cons x xs ih =>
+    simp only [ysOf, List.map_cons, List.nodup_cons] at hn
+    rcases List.mem_cons.1 ha with rfl | ha' <;> rcases List.mem_cons.1 hb with rfl | hb'
+    · rfl
+    · exfalso; apply hn.1; rw [hy]; exact List.mem_map.2 ⟨b, hb', rfl⟩
+    · exfalso; apply hn.1; rw [← hy]; exact List.mem_map.2 ⟨a, ha', rfl⟩
+    · exact ih hn.2 ha' hb'
+
+/-- Removing rows from the pending table keeps the ledger when no PENDING quote loses a row. -/
+theorem led_drop_rows (db : DB) (invs : List Invoice) (ys : List Nat) (h : Led db invs)
+    (hkeep : ∀ m ∈ db.meltQ, m.state = .pending →
+      (db.pending.filter (fun r => !ys.contains r.y)).filter (·.quote == m.id) = db.pending.filter (·.quote == m.id)) :
+    Led { db with pending := db.pending.filter (fun r => !ys.contains r.y) } invs :=
+  ⟨h.core, fun m hm hp => by
+    show needOf m ≤ amtP ((db.pending.filter (fun r => !ys.contains r.y)).filter (·.quote == m.id))
+    rw [hkeep m hm hp]; exact h.pend m hm hp⟩
+
+/-- The rows of other quotes are not among the rows of quote `qid` (unique secrets in the pending table). -/
+theorem other_rows_kept (db : DB) (qid mid : Nat) (hn : (ysOf db.pending).Nodup) (hne : mid ≠ qid) :
+    (db.pending.filter (fun r => !(quoteYs db qid).contains r.y)).filter (·.quote == mid) = db.pending.filter (·.quote == mid) := by
+  rw [List.filter_filter]
+  apply List.filter_congr
+  intro r hr
+  by_cases hq : (r.quote == mid) = true
+  · simp only [hq, Bool.true_and, Bool.not_eq_true', List.contains_eq_mem, decide_eq_false_iff_not]
+    intro hmem
+    simp only [quoteYs, List.mem_map, List.mem_filter] at hmem
+    obtain ⟨r', ⟨hr', hq'⟩, hy⟩ := hmem
+    have := row_eq_of_y hn hr' hr hy
+    subst this
+    apply hne
+    have h1 : r'.quote = mid := by simpa using hq
+    have h2 : r'.quote = qid := by simpa using hq'
+    rw [← h1, h2]
+  · simp [hq]
+
+theorem amtP_quoteRows (db : DB) (qid : Nat) : amtP (quoteRows db qid) = amtP (db.pending.filter (·.quote == qid)) := by
+  simp [amtP, quoteRows, List.map_map, Function.comp_def]
+
+theorem dbGetMeltQ_id {db : DB} {qid : Int} {q : MeltQ} (h : dbGetMeltQ db qid = .ok q) : (q.id : Int) = qid := by
+  unfold dbGetMeltQ at h
+  split at h
+  · rename_i q' hf; injection h with h; subst h
+    have := List.find?_some hf
+    have : qid = (q'.id : Int) := by simpa [intIs] using this
+    exact this.symm
+  · cases h
+
+/-- `GetMeltQuoteState` (a poll) keeps the ledger. -/
+theorem led_poll (qid : Int) (s : DL) (h : Led s.1 s.2.invoices) (hw : LedWf s.1) (hd : DbWf s.1) :
+    Led (runM (getMeltQuoteState qid) s).1.1 (runM (getMeltQuoteState qid) s).1.2.invoices := by
+  apply led_transfer
+  generalize hr : runM (getMeltQuoteState qid) s = x
+  obtain ⟨s', r⟩ := x
+  show Led s'.1 s.2.invoices
+  rcases poll_cases qid s s' r hd.pendingWf hr with ⟨_, _, rfl⟩ | ⟨q, hget, ⟨_, _, rfl⟩ | ⟨hp, _, hdb⟩⟩
+  · exact h
+  · exact h
+  · have hq : q ∈ s.1.meltQ := dbGetMeltQ_mem hget
+    have hs : q.state ≠ .paid := by rw [hp]; simp
+    rw [hdb]
+    cases pollOutcome (ans0 s.2) with
+    | pending => exact h
+    | paid =>
+      have h1 := led_quote_paid s.1 s.2.invoices q (q.hash + 1) (quoteRows s.1 q.id) h hw hq hs
+        (by rw [amtP_quoteRows]; exact h.pend q hq hp)
+      have h2 := led_drop_rows _ _ (quoteYs s.1 q.id) h1 (by
+        intro m hm hpm
+        obtain ⟨m0, hm0, he⟩ := mem_updMeltQ hm
+        by_cases hid : (m0.id == q.id) = true
+        · rw [if_pos hid] at he; rw [he] at hpm; cases hpm
+        · rw [if_neg hid] at he; subst he
+          exact other_rows_kept s.1 q.id m.id hd.pendingNodup (by simpa using hid))
+      exact h2
+    | unpaid =>
+      have h1 := led_quote_unpaid s.1 s.2.invoices q 0 h hw hq hs
+      have h2 := led_drop_rows _ _ (quoteYs s.1 q.id) h1 (by
+        intro m hm hpm
+        obtain ⟨m0, hm0, he⟩ := mem_updMeltQ hm
+        by_cases hid : (m0.id == q.id) = true
+        · rw [if_pos hid] at he; rw [he] at hpm; cases hpm
+        · rw [if_neg hid] at he; subst he
+          exact other_rows_kept s.1 q.id m.id hd.pendingNodup (by simpa using hid))
+      exact h2
+
+
+theorem LedWf.runM {α : Type} (p : PM α) (s : DL) (hw : LedWf s.1) : LedWf (runM p s).1.1 :=
+  ⟨Gonuts.Props.C06.mintQ_nodup_db.runM p s hw.mintIds, meltQ_nodup_db.runM p s hw.meltIds⟩
+
+theorem led_pollAll (qs : List Nat) (s : DL) (h : Led s.1 s.2.invoices) (hw : LedWf s.1) (hd : DbWf s.1) :
+    Led (runM (pollAll qs) s).1.1 (runM (pollAll qs) s).1.2.invoices := by
+  induction qs generalizing s with
+  | nil => exact h
+  | cons q rest ih =>
+    simp only [pollAll]
+    rw [runM_bind]
+    have h1 := led_poll q s h hw hd
+    have h2 := hw.runM (getMeltQuoteState (q : Int)) s
+    have h3 := wf_poll q s hd
+    generalize runM (getMeltQuoteState (q : Int)) s = x at h1 h2 h3
+    obtain ⟨s1, r1⟩ := x
+    cases r1 with
+    | error e => exact h1
+    | ok v => exact ih s1 h1 h2 h3
+
+/-- `ProofsStateCheck` (which re-polls the pending melts involved) keeps the ledger. -/
+theorem led_checkstate (ys : List YRef) (s : DL) (h : Led s.1 s.2.invoices) (hw : LedWf s.1) (hd : DbWf s.1) :
+    Led (runM (proofsStateCheck ys) s).1.1 (runM (proofsStateCheck ys) s).1.2.invoices := by
+  rw [checkstate_runM]
+  have h1 := led_pollAll (dedupNat ((s.1.pending.filter (fun r => yMatch ys r.y)).map (·.quote))).reverse s h hw hd
+  generalize runM (pollAll _) s = x at h1
+  obtain ⟨s1, r1⟩ := x
+  cases r1 <;> exact h1
+
+/-! ## Lifting to the sequential machine -/
+
+theorem Sess.runPM_led {α : Type} (s : Sess) (p : PM α) (script : List LnAns) (hf : NoFault s.w)
+    (hp : ∀ d : DL, d.1 = s.w.db → d.2.invoices = s.w.ln.invoices → Led (runM p d).1.1 (runM p d).1.2.invoices) :
+    Led (s.runPM p script).1.w.db (s.runPM p script).1.w.ln.invoices := by
+  obtain ⟨ln', hrun, _, _, _, _, _, _, hinv, _⟩ := Sess.runPM_bridge s p script hf
+  have := hp (s.w.db, opLn s script) rfl rfl
+  rw [hrun] at this
+  rw [hinv]; exact this
+
+theorem isSettled_settle (invs : List Invoice) (h x : Nat) (hx : isSettled invs x = true) :
+    isSettled (invs.map (fun i => if i.id == h then { i with settled := true } else i)) x = true := by
+  unfold isSettled at hx ⊢
+  induction invs with
+  | nil => simp at hx
+  | cons i rest ih =>
+    simp only [List.map_cons, List.find?_cons] at hx ⊢
+    by_cases hid : (i.id == x) = true
+    · have hid' : ((if (i.id == h) = true then { i with settled := true } else i).id == x) = true := by
+        split <;> exact hid
+      simp only [hid, hid'] at hx ⊢
+      split
+      · rfl
+      · exact hx
+    · have hid' : ¬ ((if (i.id == h) = true then { i with settled := true } else i).id == x) = true := by
+        split <;> exact hid
+      simp only [hid, hid'] at hx ⊢
+      exact ih hx
+
+/-- Admissibility of an operation at a state: the backend only notifies the watcher of a quote whose invoice it has
+    settled; a melt request satisfies `MeltOk`. Every other operation, with any content, is admissible. -/
+def OpOk (s : Sess) : Op → Prop
+  | .notify q => ∀ mq, dbGetMintQ s.w.db q = .ok mq → isSettled s.w.ln.invoices mq.hash = true
+  | .melt q ps _ _ => MeltOk (cxOf s) s.w.db q ps
+  | _ => True
+
+theorem applyOp_led (s : Sess) (op : Op) (ha : op.arms = false) (hf : NoFault s.w) (hd : DbWf s.w.db)
+    (hn : OpOk s op) (hl : Led s.w.db s.w.ln.invoices) (hw : LedWf s.w.db) :
+    Led (applyOp s op).1.w.db (applyOp s op).1.w.ln.invoices := by
+  cases op <;> simp only [applyOp]
+  case extInvoice id msat =>
+    exact hl.congr_invoices (fun x => isSettled_append _ _ rfl x)
+  case settle h =>
+    exact hl.mono_invoices (fun x hx => isSettled_settle _ h x hx)
+  case mintQuote amount unitSat pk lnFail =>
+    have := Sess.runPM_led { s with w := { s.w with ln := { s.w.ln with failCreateInvoice := if lnFail then 1 else 0 } } }
+      (requestMintQuote (cxOf s) s.w.nextMintQ amount unitSat pk) [] hf
+      (fun d hd hi => led_mintQuote _ _ _ _ _ d (by rw [hd, hi]; exact hl))
+    split <;> exact this
+  case notify q =>
+    split
+    · apply Sess.runPM_led s (watcherNotified q) [] hf
+      intro d hd hi
+      apply led_watcher q d (by rw [hd, hi]; exact hl) (by rw [hd]; exact hw)
+      intro mq hq
+      rw [hi]; exact hn mq (by rw [← hd]; exact hq)
+    · exact hl
+  case quoteState q lnFail =>
+    apply Sess.runPM_led { s with w := { s.w with ln := { s.w.ln with failInvoiceStatus := if lnFail then 1 else 0 } } }
+      (getMintQuoteState q) [] hf
+    intro d hd hi
+    rw [getMintQuoteState_runM]
+    exact (led_gmqs q d (by rw [hd, hi]; exact hl) (by rw [hd]; exact hw)).1
+  case mint q outs sig =>
+    apply Sess.runPM_led s _ [] hf
+    intro d hd hi
+    exact led_mint _ q outs sig d (by rw [hd, hi]; exact hl) (by rw [hd]; exact hw)
+  case swap ps outs v =>
+    apply Sess.runPM_led s _ [] hf
+    intro d hd hi
+    exact led_swap _ ps outs v d (by rw [hd, hi]; exact hl)
+  case meltQuote inv unitSat mpp =>
+    have := Sess.runPM_led s (requestMeltQuote (cxOf s) s.w.nextMeltQ inv (invMsat s.w.ln) unitSat mpp) [] hf
+      (fun d hd hi => led_meltQuote _ _ _ _ _ _ d (by rw [hd, hi]; exact hl))
+    split <;> exact this
+  case melt q ps script lnFail =>
+    apply Sess.runPM_led { s with w := { s.w with ln := { s.w.ln with failInvoiceStatus := if lnFail then 1 else 0 } } }
+      (meltTokens (cxOf s) q ps) script hf
+    intro d hdd hi
+    exact led_melt _ q ps d (by rw [hdd, hi]; exact hl) (by rw [hdd]; exact hw) (by rw [hdd]; exact hn)
+  case meltState q script =>
+    apply Sess.runPM_led s _ script hf
+    intro d hdd hi
+    exact led_poll q d (by rw [hdd, hi]; exact hl) (by rw [hdd]; exact hw) (by rw [hdd]; exact hd)
+  case checkState ys script =>
+    apply Sess.runPM_led s _ script hf
+    intro d hdd hi
+    exact led_checkstate ys d (by rw [hdd, hi]; exact hl) (by rw [hdd]; exact hw) (by rw [hdd]; exact hd)
+  case restore bs =>
+    apply Sess.runPM_led s _ [] hf
+    intro d hd hi
+    have := Gonuts.Props.C06.restore_noop bs d
+    rw [this, hd, hi]; exact hl
+  case balance =>
+    apply Sess.runPM_led s _ [] hf
+    intro d hd hi
+    have hb : (runM (balanceOp (cxOf s)) d).1 = d := (balanceOp_cases (cxOf s) d (runM (balanceOp (cxOf s)) d).1 (runM (balanceOp (cxOf s)) d).2 rfl).1
+    rw [hb, hd, hi]; exact hl
+  case rotate fee =>
+    have hw0 : NoFault { s.w with trace := [], ln := { s.w.ln with calls := [] } } := hf
+    obtain ⟨h1, _, _, _, _, _, _⟩ := run_eq_runDL (rotateKeyset s.w.mem fee) _ hw0
+    obtain ⟨hln, ks, hks⟩ := rotate_cases s.w.mem fee (s.w.db, { s.w.ln with calls := [] })
+    have hdb : ((rotateKeyset s.w.mem fee).run { s.w with trace := [], ln := { s.w.ln with calls := [] } }).1.db
+        = { s.w.db with keysets := ks } := by
+      have := congrArg Prod.fst h1
+      simp only [] at this
+      rw [this]; exact hks
+    have hli : ((rotateKeyset s.w.mem fee).run { s.w with trace := [], ln := { s.w.ln with calls := [] } }).1.ln.invoices
+        = s.w.ln.invoices := by
+      have := congrArg Prod.snd h1
+      simp only [] at this
+      rw [this, hln]
+    show Led ((rotateKeyset s.w.mem fee).run _).1.db ((rotateKeyset s.w.mem fee).run _).1.ln.invoices
+    rw [hdb, hli]
+    exact ⟨hl.core, hl.pend⟩
+  case restart rotate fee =>
+    split
+    · have hw0 : NoFault { s.w with mem := memOfDb s.w.db, trace := [], ln := { s.w.ln with calls := [] } } := hf
+      obtain ⟨h1, _, _, _, _, _, _⟩ := run_eq_runDL (rotateKeyset (memOfDb s.w.db) fee) _ hw0
+      obtain ⟨hln, ks, hks⟩ := rotate_cases (memOfDb s.w.db) fee (s.w.db, { s.w.ln with calls := [] })
+      have hdb : ((rotateKeyset (memOfDb s.w.db) fee).run
+          { s.w with mem := memOfDb s.w.db, trace := [], ln := { s.w.ln with calls := [] } }).1.db
+          = { s.w.db with keysets := ks } := by
+        have := congrArg Prod.fst h1
+        simp only [] at this
+        rw [this]; exact hks
+      have hli : ((rotateKeyset (memOfDb s.w.db) fee).run
+          { s.w with mem := memOfDb s.w.db, trace := [], ln := { s.w.ln with calls := [] } }).1.ln.invoices
+          = s.w.ln.invoices := by
+        have := congrArg Prod.snd h1
+        simp only [] at this
+        rw [this, hln]
+      show Led ((rotateKeyset (memOfDb s.w.db) fee).run _).1.db ((rotateKeyset (memOfDb s.w.db) fee).run _).1.ln.invoices
+      rw [hdb, hli]
+      exact ⟨hl.core, hl.pend⟩
+    · exact hl
+  case armFault => simp [Op.arms] at ha
+  case disarm => exact hl
+
+
+/-- A history whose operations are admissible at the state they are applied to. -/
+def HistOk (s : Sess) : List Op → Prop
+  | [] => True
+  | op :: rest => op.arms = false ∧ OpOk s op ∧ HistOk (applyOp s op).1 rest
+
+theorem runOps_led (s : Sess) (ops : List Op) (hh : HistOk s ops) (hf : NoFault s.w) (hd : DbWf s.w.db)
+    (hl : Led s.w.db s.w.ln.invoices) (hw : LedWf s.w.db) :
+    Led (runOps s ops).w.db (runOps s ops).w.ln.invoices := by
+  induction ops generalizing s with
+  | nil => exact hl
+  | cons op rest ih =>
+    obtain ⟨ha, hn, hrest⟩ := hh
+    obtain ⟨hd', hf'⟩ := applyOp_wf s op ha hf hd
+    exact ih _ hrest hf' hd' (applyOp_led s op ha hf hd hn hl hw) (hw.applyOp s op)
+
+theorem led_init (fee : UInt64) (pct : Bool) (cfg : Cfg) :
+    Led (initSess fee pct cfg).w.db (initSess fee pct cfg).w.ln.invoices ∧ LedWf (initSess fee pct cfg).w.db ∧
+    DbWf (initSess fee pct cfg).w.db := by
+  refine ⟨⟨by simp [initSess, credit, received, paidOut], by intro m hm; simp [initSess] at hm⟩,
+          ⟨by simp [initSess], by simp [initSess]⟩,
+          ⟨by simp [initSess, ysOf], by simp [initSess, ysOf], by intro r hr; simp [initSess] at hr,
+           by intro r hr; simp [initSess] at hr, by simp [initSess]⟩⟩
+
 end Gonuts.Model.Mint
